@@ -568,6 +568,7 @@ func oracleBuild(w *World, ops []OpSpec, bb *builtBundle) []Violation {
 	b := bb.bundle
 	// --- C14: each piece of work exactly once ---
 	fetches, versionsC, sources, analyses := map[string]int{}, map[string]int{}, map[string]int{}, map[refItem]int{}
+	sourcesExact := map[string]int{}
 	for _, c := range o.Calls {
 		switch c.Kind {
 		case "fetch":
@@ -576,6 +577,7 @@ func oracleBuild(w *World, ops []OpSpec, bb *builtBundle) []Violation {
 			versionsC[c.A]++
 		case "source":
 			sources[c.A+"@"+cmpV(c.B)]++
+			sourcesExact[c.A+"@"+c.B]++
 		case "analyze":
 			analyses[refItem{c.A, c.B, c.F}]++
 		}
@@ -609,8 +611,15 @@ func oracleBuild(w *World, ops []OpSpec, bb *builtBundle) []Violation {
 			vs = append(vs, viol("C14", fmt.Sprintf("version list of %s requested %d times", rp, versionsC[rp])))
 		}
 	}
+	// versions that differ only in build metadata are different versions to the registry client
+	// (an exact request names one of them): each is looked up at most once, and at least one of them
+	for k, n := range sourcesExact {
+		if n != 1 {
+			vs = append(vs, viol("C14", fmt.Sprintf("source address of %s requested %d times", k, n)))
+		}
+	}
 	for k := range ref.Resolved {
-		if sources[k] != 1 {
+		if sources[k] < 1 {
 			vs = append(vs, viol("C14", fmt.Sprintf("source address of %s requested %d times", k, sources[k])))
 		}
 	}
